@@ -188,6 +188,8 @@ pub mod rpc;
 pub mod serialization;
 pub mod thread_local;
 pub mod time;
+#[cfg(feature = "verif")]
+pub mod verif;
 
 use concurrency::JoinHandle;
 #[cfg(not(feature = "async-trait"))]
